@@ -1,5 +1,5 @@
 (* C06 - start discipline: rounds until Go, method starts on the right stroke. *)
-From Wh Require Import Prelude Permute PN Gens Complib Tower Rhythm PyStr Sys GensP BotP.
+From Wh Require Import Prelude Permute PN Gens Complib Tower Rhythm PyStr Sys GensP BotP SettingsP.
 From Coq Require Import NArith ZArith QArith.
 Close Scope Q_scope.
 
@@ -54,3 +54,8 @@ From Coq Require Import ZArith QArith.
 (* "up-down-in mode" is -u or -H on the command line, and always on in server mode *)
 Theorem C06_up_down_in_flag : forall c cfg, console_cfg c = Ok cfg -> bc_udi cfg = (cl_udi c || cl_handbell c).
 Proof. exact up_down_in_flag. Qed.
+
+(* neither settings nor people coming and going touch the start bookkeeping (counter, flags, row number) *)
+Theorem C06_settings_leave_the_start_alone : forall nested w kvs w' o,
+  handle nested w (MSetting kvs) = (w', o) -> same_control w w'.
+Proof. exact setting_message_keeps_control. Qed.
